@@ -1256,6 +1256,149 @@ Section ClosedForm.
   Qed.
 End ClosedForm.
 
+
+(* ---- the law as a differential equation ---- *)
+(* y / (1 + y) <= 1 - e^{-y} for y >= 0 *)
+Lemma one_minus_exp_ge y : 0 <= y -> y / (1 + y) <= 1 - exp (- y).
+Proof.
+  intro Hy. pose proof (exp_neg_tangent y ltac:(lra)) as H. pose proof (exp_pos (- y)) as Hp.
+  assert (exp (- y) <= / (1 + y)).
+  { apply (Rmult_le_reg_r (1 + y)); [lra|]. rewrite Rinv_l by lra. exact H. }
+  unfold Rdiv. replace (y * / (1 + y)) with (1 - / (1 + y)) by (field; lra). lra.
+Qed.
+
+(* right derivative at 0 of  h |-> l2_soc_step (r h) knee s  is  min(r, r/(1-knee) (1-s)) *)
+Lemma soc_step_right_deriv r knee s : 0 < r -> knee < 1 -> s <= 1 ->
+  forall eps, 0 < eps -> exists delta, 0 < delta /\ forall h, 0 < h < delta ->
+    Rabs ((l2_soc_step (r * h) knee s - s) / h - Rmin r (r / (1 - knee) * (1 - s))) < eps.
+Proof.
+  intros Hr Hk Hs eps Heps.
+  set (k := r / (1 - knee)). assert (Hkpos : 0 < k) by (apply div_pos; lra).
+  assert (Ek : k * (1 - knee) = r) by (unfold k; field; lra).
+  destruct (Rlt_le_dec s knee) as [Hlt|Hge].
+  - (* constant stage: the quotient is exactly r *)
+    exists ((knee - s) / r). split; [apply div_pos; lra|]. intros h [Hh0 Hh].
+    assert (Hrh : r * h < knee - s).
+    { apply (Rmult_lt_compat_l r) in Hh; [|lra]. replace (r * ((knee - s) / r)) with (knee - s) in Hh by (field; lra). lra. }
+    rewrite l2_soc_step_pre by (try lra; apply Rmult_lt_0_compat; lra).
+    replace ((s + r * h - s) / h) with r by (field; lra).
+    rewrite Rmin_left by nra.
+    replace (r - r) with 0 by lra. rewrite Rabs_R0. exact Heps.
+  - (* declining stage *)
+    set (L := k * (1 - s)). assert (HL : 0 <= L) by (unfold L; nra).
+    assert (HLr : L <= r) by (unfold L; nra).
+    exists (eps / (L * k + 1)). assert (0 < L * k + 1) by nra.
+    split; [apply div_pos; lra|]. intros h [Hh0 Hh].
+    rewrite l2_soc_step_ramp by lra. fold k.
+    replace (r * h / (1 - knee)) with (k * h) by (unfold k; field; lra).
+    rewrite Rmin_right by (fold L; lra). fold L.
+    set (y := k * h). assert (Hy : 0 < y) by (unfold y; nra).
+    pose proof (one_minus_exp_le y) as Hup. pose proof (one_minus_exp_ge y ltac:(lra)) as Hlo.
+    set (e := 1 - exp (- y)) in *.
+    assert (Eq : (1 - (1 - s) * exp (- y) - s) / h = (1 - s) * e / h).
+    { subst e. field. lra. }
+    rewrite Eq.
+    (* (1-s) e / h  is between  L/(1+y)  and  L *)
+    assert (Hq_up : (1 - s) * e / h <= L).
+    { unfold L. apply (Rmult_le_reg_r h); [lra|]. unfold Rdiv. rewrite Rmult_assoc, Rinv_l by lra.
+      unfold y in *. nra. }
+    assert (Hq_lo : L / (1 + y) <= (1 - s) * e / h).
+    { apply (Rmult_le_reg_r h); [lra|]. unfold Rdiv at 2. rewrite Rmult_assoc, Rinv_l by lra.
+      assert (y / (1 + y) * (1 - s) <= e * (1 - s)) by (apply Rmult_le_compat_r; lra).
+      assert (ELh : L * h = y * (1 - s)) by (unfold L, y; ring).
+      replace (L / (1 + y) * h) with (L * h / (1 + y)) by (field; lra).
+      rewrite ELh. replace (y * (1 - s) / (1 + y)) with (y / (1 + y) * (1 - s)) by (field; lra). lra. }
+    assert (Hgap : L - L / (1 + y) <= L * k * h).
+    { replace (L - L / (1 + y)) with (L * (y / (1 + y))) by (field; lra).
+      replace (L * k * h) with (L * y) by (unfold y; ring).
+      apply Rmult_le_compat_l; [lra|].
+      apply (Rmult_le_reg_r (1 + y)); [lra|]. unfold Rdiv. rewrite Rmult_assoc, Rinv_l by lra. nra. }
+    assert (Hsmall : L * k * h < eps).
+    { apply (Rmult_lt_compat_l (L * k + 1)) in Hh; [|lra].
+      replace ((L * k + 1) * (eps / (L * k + 1))) with eps in Hh by (field; lra). nra. }
+    apply Rabs_def1; lra.
+Qed.
+
+(* one-sided (right) derivative *)
+Definition right_derivative (f : R -> R) (x l : R) : Prop :=
+  forall eps, 0 < eps -> exists delta, 0 < delta /\ forall h, 0 < h < delta ->
+    Rabs ((f (x + h) - f x) / h - l) < eps.
+
+(* the documented law: power accepted at stored charge x [kW] *)
+Definition l2_law_power (cap maxP ts pilot V x : R) : R :=
+  Rmin (l2_req_power maxP pilot V) (l2_ramp_power cap maxP ts x).
+
+Lemma Rmin_scale a x y : 0 <= a -> Rmin (a * x) (a * y) = a * Rmin x y.
+Proof.
+  intro Ha. destruct (Rmin_cases x y) as [[H ->]|[H ->]].
+  - apply Rmin_left. nra.
+  - apply Rmin_right. nra.
+Qed.
+
+(* average power over a vanishing first period -> the law's power at the initial charge *)
+Lemma c14_law_initial cap maxP ts c pilot V :
+  0 < cap -> 0 < maxP -> ts < 1 -> c <= cap -> 0 < V -> 0 <= pilot ->
+  forall eps, 0 < eps -> exists delta, 0 < delta /\ forall h, 0 < h < delta ->
+    Rabs ((l2_after cap maxP ts c pilot V h - c) / (h / 60) - l2_law_power cap maxP ts pilot V c) < eps.
+Proof.
+  intros Hcap HmaxP Hts Hc HV Hp0 eps Heps.
+  assert (Hs1 : c / cap <= 1) by (apply soc_le1; assumption).
+  destruct (Req_dec pilot 0) as [->|Hne].
+  - exists 1. split; [lra|]. intros h [Hh _].
+    rewrite l2_after_zero_pilot by assumption.
+    unfold l2_law_power, l2_req_power, l2_ramp_power.
+    replace (0 * V / 1000) with 0 by lra. rewrite (Rmin_left 0 maxP) by lra.
+    assert (0 <= maxP * (1 - c / cap) / (1 - ts)).
+    { apply div_nonneg; [|lra]. apply Rmult_le_pos; lra. }
+    rewrite Rmin_left by lra.
+    replace ((c - c) / (h / 60) - 0) with 0 by (field; lra). rewrite Rabs_R0. exact Heps.
+  - assert (Hp : 0 < pilot) by lra.
+    pose proof (l2_rate_pos cap maxP pilot V Hcap HmaxP HV Hp) as Hr.
+    pose proof (l2_knee_lt1 cap maxP ts pilot V Hcap HmaxP Hts HV Hp) as Hk.
+    set (r := l2_rate cap maxP pilot V) in *. set (knee := l2_knee cap maxP ts pilot V) in *.
+    assert (Hscale : 0 < 60 * cap) by lra.
+    destruct (soc_step_right_deriv r knee (c / cap) Hr Hk Hs1 (eps / (60 * cap)) ltac:(apply div_pos; lra))
+      as (delta & Hd & Hlim).
+    exists delta. split; [exact Hd|]. intros h Hh.
+    specialize (Hlim h Hh).
+    rewrite l2_after_soc by (try assumption; lra). fold r. fold knee.
+    (* rewrite both sides as 60 cap * (soc quantities) *)
+    assert (Elaw : l2_law_power cap maxP ts pilot V c = 60 * cap * Rmin r (r / (1 - knee) * (1 - c / cap))).
+    { unfold l2_law_power. rewrite <- Rmin_scale by lra. f_equal.
+      - unfold r. rewrite l2_rate_req by assumption. field. lra.
+      - unfold l2_ramp_power, knee, l2_knee. fold r. field.
+        assert (0 < r / (maxP / cap / 60)) by (apply div_pos; [lra|repeat apply div_pos; lra]).
+        repeat split; try lra.
+        replace (maxP - (maxP - r * (cap * 60) * (1 - ts))) with (r * (cap * 60) * (1 - ts)) by ring.
+        apply Rgt_not_eq. apply Rmult_lt_0_compat; [apply Rmult_lt_0_compat|]; lra. }
+    rewrite Elaw.
+    replace ((l2_soc_step (r * h) knee (c / cap) * cap - c) / (h / 60))
+      with (60 * cap * ((l2_soc_step (r * h) knee (c / cap) - c / cap) / h)) by (field; lra).
+    rewrite <- Rmult_minus_distr_l, Rabs_mult, (Rabs_pos_eq (60 * cap)) by lra.
+    apply (Rmult_lt_compat_l (60 * cap)) in Hlim; [|lra].
+    replace (60 * cap * (eps / (60 * cap))) with eps in Hlim by (field; lra). exact Hlim.
+Qed.
+
+(* the result of a period is the flow of the documented differential law: at every time T > 0 the
+   right derivative of the stored charge [kWh per minute] is the law's power at the current charge / 60 *)
+Lemma c14_law_ode cap maxP ts c pilot V T :
+  0 < cap -> 0 < maxP -> ts < 1 -> c <= cap -> 0 < V -> 0 < T -> 0 <= pilot ->
+  right_derivative (fun t => l2_after cap maxP ts c pilot V t) T
+                   (l2_law_power cap maxP ts pilot V (l2_after cap maxP ts c pilot V T) / 60).
+Proof.
+  intros Hcap HmaxP Hts Hc HV HT Hp eps Heps.
+  pose proof (l2_after_bounds cap maxP ts c pilot V T Hcap HmaxP Hts Hc HV HT Hp) as [_ Hb].
+  destruct (c14_law_initial cap maxP ts (l2_after cap maxP ts c pilot V T) pilot V
+              Hcap HmaxP Hts Hb HV Hp (60 * eps) ltac:(lra)) as (delta & Hd & Hlim).
+  exists delta. split; [exact Hd|]. intros h Hh. specialize (Hlim h Hh).
+  cbv beta. rewrite c14_split by (try assumption; lra).
+  set (x := l2_after cap maxP ts c pilot V T) in *.
+  set (y := l2_after cap maxP ts x pilot V h) in *.
+  set (l := l2_law_power cap maxP ts pilot V x) in *.
+  replace ((y - x) / h - l / 60) with (((y - x) / (h / 60) - l) / 60) by (field; lra).
+  unfold Rdiv at 1. rewrite Rabs_mult, (Rabs_pos_eq (/ 60)) by lra. lra.
+Qed.
+
 (* ---- packaged statements for Props/C03.v ---- *)
 Lemma Battery_charge_rejects cap c p0 maxP pilot V T : V <= 0 \/ T <= 0 ->
   Battery_charge cap c p0 maxP pilot V T =
